@@ -19,7 +19,7 @@
 From Coq Require Import List ZArith Bool Arith.
 From Coercion.Base Require Import Plan.
 From Coercion.Engine Require Import Shape Event PlanSM Accept.
-From Coercion.C03 Require Import MonC03 MonC03Proofs.
+From Coercion.C03 Require Import MonC03 MonC03Proofs SchedIndep.
 From Coercion.Limiter Require Limiter LimiterExamples.
 From Coercion.Limiter Require Mechanisms.
 Import ListNotations.
@@ -48,6 +48,27 @@ Theorem c03_release :
       (m_bst m = Failed -> fin_is fin OPlan Failed = true).
 Proof. exact c03_release_l. Qed.
 Print Assumptions c03_release.
+
+(* block_verdict_schedule_independent at the level of the observable automaton.  tr is any accepted trace (any
+   schedule: order of launches and completions, interleaving with check runs, re-writes); the next event is the
+   block's DECIDING write (the monitor state m after tr still shows the block Running).  If the oracle is
+   action-determined - a sequence that finished, finished Failed iff fails says so - and neither a check group of the
+   block nor the plan's continuous group failed, and the block was not bypassed (some sequence was started), then
+   that write is Failed iff the number of sequences that WOULD fail exceeds the tolerance: the verdict does not
+   depend on the schedule, although which and how many sequences actually ran does. *)
+Theorem c03_block_verdict_schedule_independent :
+  forall (sh : shape) (tr : list event) (c : nat) (stt : status) (n : nat) (ok : bool) (r : reason) (s : st)
+         (m : mst) (bs : bshape) (fails : nat -> bool),
+    run sh init (tr ++ [EvWrite (OBlock c) stt n ok r]) = Some s ->
+    mon_run sh m0 tr = Some m -> m_cur m = Some c -> m_bst m = Running -> stt = Completed \/ stt = Failed ->
+    block_of sh c = Some bs ->
+    (forall q, nth_error (m_seqs m) q = Some QFail -> fails q = true) ->
+    (forall q, nth_error (m_seqs m) q = Some QOk -> fails q = false) ->
+    m_chk m = false -> m_pcont m = false ->
+    (exists q x, nth_error (m_seqs m) q = Some x /\ x <> QNot) ->
+    (stt = Failed <-> (0 <= bs_tol bs)%Z /\ (bs_tol bs < Z.of_nat (would_fail fails (length (bs_seqs bs))))%Z).
+Proof. exact c03_block_verdict_schedule_independent_l. Qed.
+Print Assumptions c03_block_verdict_schedule_independent.
 
 (* ---- the mechanism: detailed model of ExecuteSequences WITH its unobservable steps (coq/limiter/Limiter.v:
    main loop check-exceeded / acquire-slot / spawn; worker inner re-check / run / terminal write / failures.Add /
